@@ -14,6 +14,7 @@ structure DS where
   seeds : List Comp := []
   rules : List Rule := []
   st : Option St := none
+  h : Option HSt := none
 
 def optStr (f : String) : Option (Option Str) :=
   if f = "~" then some none else (decStr f).map some
@@ -88,7 +89,7 @@ def decAct (s : DS) : List String → Option Action
       let kw ← decDict kw
       pure (.ret c key kw)
   | ["none"] => some .retNone
-  | ["other"] => some .retOther
+  | ["other", b] => (decBool b).map .retOther
   | ["raise", e] => (decExc e).map .raise
   | _ => none
 
@@ -140,6 +141,23 @@ def jstate (s : DS) (env : Env) (st : St) : String :=
         ("excs", jlist (st.excs.map (fun p => jlist [toString p.1, jexc p.2]))),
         ("stored", jlist ((st.inst.filter (fun p => p.2.isSome)).map (fun p => toString p.1))),
         ("finals", jlist ((finals env s.seeds s.rules).map (fun p => jlist [toString p.1.id, "\"" ++ finalTag p.2 ++ "\""])))]
+
+def jstateH (st : St) : String :=
+  jobj [("results", jobj (st.results.map (fun kv => (encStr kv.1, jlist (kv.2.map jentry))))),
+        ("skips", jlist (st.skips.map (fun p => jobj [("src", toString p.1), ("fields", jdict p.2.fields)]))),
+        ("metadata", jdict st.metadata),
+        ("mdkeys", jdict st.mdKeys),
+        ("excs", jlist (st.excs.map (fun p => jlist [toString p.1, jexc p.2]))),
+        ("stored", jlist ((st.inst.filter (fun p => p.2.isSome)).map (fun p => toString p.1)))]
+
+def decFired (s : DS) (f : String) : Option (List Fired) :=
+  if f = "-" then some [] else
+  (f.splitOn ",").foldr (fun item acc =>
+    match acc, item.splitOn ":" with
+    | some xs, [i, g] => match i.toNat?, decBool g with
+      | some i, some g => (s.rules.find? (fun r => r.id = i)).map (fun r => (r, g) :: xs)
+      | _, _ => none
+    | _, _ => none) (some [])
 
 def jtop : Top → String
   | .val v => jobj [("val", jval v)]
@@ -203,6 +221,19 @@ def handleLine (s : DS) (fs : List String) : DS × String :=
     match decBool missing, decBool failOnly, decStrs "," showArg with
     | some m, some f, some a => (s, jlist ((adapterShow m f a).map jstr))
     | _, _, _ => (s, "bad-op")
+  | ["hnew"] => ({ s with h := some ⟨St.init s.seeds, []⟩ }, "ok")
+  | ["hreg", o] =>
+    match s.h, decNat o with
+    | some h, some o => ({ s with h := some (applyOp (mkEnv s) h (.register o)) }, "ok")
+    | _, _ => (s, "bad-op")
+  | ["hrun", fired] =>
+    match s.h, decFired s fired with
+    | some h, some fired => ({ s with h := some (applyOp (mkEnv s) h (.run fired)) }, "ok")
+    | _, _ => (s, "bad-op")
+  | ["hstate"] =>
+    match s.h with
+    | some h => (s, jstateH h.st)
+    | none => (s, "bad-op")
   | ["reprlen", d] =>
     match decDict d with
     | some d => (s, toString (reprDict d).length)
